@@ -90,7 +90,7 @@ class C15(Plugin):
             return c.from_curie(text, **kw)
 
         o1 = [pair_or_exc(lambda c=c, x=x: fc(c, x.curie)) for c, x in zip(cls, inst)]
-        o2 = [pair_or_exc(lambda c=c: fc(c, s, sep=sep)) for c in cls]
+        o2 = [pair_or_exc(lambda c=c: fc(c, s, **qprops.flags(sep=sep))) for c in cls]
         o3 = [pair_or_exc(lambda c=c: c.model_validate(s)) for c in cls[1:]]
         o4 = []
         for x in inst[1:]:
